@@ -240,6 +240,20 @@ func (ctx *Context) GetCurSeed() ([]byte, error) {
 	return randSource.MarshalBinary()
 }
 
+// chargeBytes 按长度折算算力(每64字节1点)。字符串可以通过反复自我拼接成倍增长，
+// 若拼接不计算力，几十次循环就能在算力上限之内耗尽内存
+func (ctx *Context) chargeBytes(n int) bool {
+	if ctx == nil || ctx.Config.OpCountLimit <= 0 {
+		return true
+	}
+	ctx.NumOpCount += IntType(n / 64)
+	if ctx.NumOpCount > ctx.Config.OpCountLimit {
+		ctx.Error = errors.New("允许算力上限")
+		return false
+	}
+	return true
+}
+
 func (ctx *Context) loadInnerVar(name string) *VMValue {
 	return builtinValues[name]
 }
@@ -752,6 +766,9 @@ func (v *VMValue) OpAdd(ctx *Context, v2 *VMValue) *VMValue {
 		switch v2.TypeId {
 		case VMTypeString:
 			val := v.Value.(string) + v2.Value.(string)
+			if !ctx.chargeBytes(len(val)) {
+				return nil
+			}
 			return NewStrVal(val)
 		}
 	case VMTypeArray:
